@@ -1,5 +1,6 @@
 import GoatSpec.Proofs.Idem
 import GoatSpec.Properties.C05
+import GoatSpec.SkelSpec
 /-! # C10 — goat patch applies manual markers exactly and renumbers consistently
     (text level: the passes of `PatchExecutor.prepareContent`; numbering: `replaceTracks`).
 
@@ -304,5 +305,36 @@ example : ∀ it ∈ [Item.user ['x'], genBlockItem, Item.ins Extracted.trackIns
     Item.block .delete Extracted.trackDeleteComment [['y']] Extracted.trackEndComment,
     Item.block .main Extracted.trackMainEntryComment [['s']] Extracted.trackEndComment], it.wf = true := by
   decide
+
+/-! ## the order of the passes, read off the source (`vh skeleton`, regenerated on every run) -/
+section skeleton
+open GoatSpec.SkelSpec
+
+/-- **`PatchExecutor.prepareContent` runs delete, insert, reset-generate, reset-main in the order
+    `patchLines` composes them** -/
+theorem patch_pass_order_in_source :
+    (callOrder "pkg/goat.PatchExecutor.prepareContent").filter (· ≠ "pkg/config.Config.PrinterConfig") =
+    ["pkg/goat.handleGoatDelete", "pkg/goat.handleGoatInsert", "pkg/goat.resetGoatGenerate", "pkg/goat.resetGoatMain"] := by
+  decide +kernel
+
+/-- each pass uses the regular expression of its marker kind and no other -/
+theorem patch_pass_regexps :
+    refOrder "pkg/goat.handleGoatDelete" = ["pkg/config.TrackDeleteEndRegexp", "pkg/config.TrackGenerateEndRegexp"]
+    ∧ refOrder "pkg/goat.handleGoatInsert" = ["pkg/config.TrackInsertRegexp"]
+    ∧ refOrder "pkg/goat.resetGoatGenerate" = ["pkg/config.TrackGenerateEndRegexp"]
+    ∧ refOrder "pkg/goat.resetGoatMain" = ["pkg/config.TrackMainEntryEndRegexp", "pkg/config.TrackGenerateEndRegexp"] := by
+  decide +kernel
+
+/-- `apply`: renumber, save the sources, then the generated file (removed when no id is left,
+    together with the emptied package directory), then the main entries -/
+theorem patch_apply_order_in_source :
+    (callOrder "pkg/goat.PatchExecutor.apply").filter (fun f => f ≠ "pkg/config.Config.GoatGeneratedFile") =
+    ["pkg/goat.PatchExecutor.replaceTracks", "pkg/goat.PatchExecutor.applyTracks", "pkg/goat.getComponentTrackIdxs",
+     "pkg/tracking/increment.NewValues", "pkg/tracking/increment.Values.AddComponent", "pkg/goat.getTotalTrackIdxs",
+     "pkg/tracking/increment.Values.Remove", "pkg/utils.IsDirEmpty",
+     "pkg/tracking/increment.Values.AddTrackIds", "pkg/tracking/increment.Values.IsEmpty",
+     "pkg/tracking/increment.Values.Save", "pkg/goat.applyMainEntries"] := by decide +kernel
+
+end skeleton
 
 end GoatSpec.C10
